@@ -61,10 +61,31 @@ def _allclose(a, b, **kw):
     return all(_valid(phsum_eq(x, y)) for x, y in zip(a.flat, b.flat))
 
 
+def _generic_abs(x):
+    """np.abs used by exclude_zeros to find vanishing matrices: a symbolic entry stands for a generic (non-zero) value, a concrete
+    entry for itself"""
+    x = rnp.asarray(x)
+    if x.dtype != object:
+        return rnp.abs(x)
+    out = rnp.zeros(x.shape)
+    for idx in rnp.ndindex(*x.shape):
+        v = x[idx]
+        if isinstance(v, PhSum):
+            out[idx] = 1.0 if v.t else 0.0
+        elif isinstance(v, (SCplx, SNum)):
+            c = SCplx.of(v)
+            cr, ci = core.conc(c.re), core.conc(c.im)
+            out[idx] = 1.0 if (cr is None or ci is None) else abs(complex(float(cr), float(ci)))
+        else:
+            out[idx] = abs(v)
+    return out
+
+
 def mk_np1():
     base = mk_np()
     ov = dict(base._over)
     ov["allclose"] = _allclose
+    ov["abs"] = _generic_abs
     return Shim(overrides=ov)
 
 
@@ -307,11 +328,61 @@ def _remap(U):
     U.assumption("np.allclose in the code's own sanity assertions is read as equality of the two symbolic expressions")
 
 
+@unit("C01", "System_R.do_ws_dist: every matrix of the re-mapped system reproduces the old one at every mesh point; one common R list", scope="shape:cubic 2x2x2, 2 Wannier functions; Ham with hoppings, SS on-site only, AA on two R-vectors", expect_min=4)
+def _do_ws_dist(U):
+    NP, RV, WS, g = build(U)
+    from collections.abc import Iterable
+    one2three = U.fn(F_UT, "one2three", globs=dict(np=rnp, Iterable=Iterable), model=False, rewrite_comps=False)
+    SR = U.klass(F_SR, "System_R", globs=dict(np=NP, Rvectors=RV, one2three=one2three), rewrite_comps=False,
+                 only=("do_ws_dist", "set_R_mat", "get_R_mat", "has_R_mat"), extra=dict(half_wann_matrices=set()))
+
+    def body():
+        core.RATIONALIZE[0] = True
+        try:
+            latt, mesh, cen, tol, tail = GEOM[list(GEOM)[0]]
+            nw = len(cen)
+            old = rnp.array([[0, 0, 0], [1, 0, 0], [-1, 0, 0], [0, 1, 1], [0, -1, -1], [3, 0, 1]])
+            me = SR.__new__(SR)
+            me.logfile = io.StringIO()
+            me.real_lattice = latt
+            me.num_wann = nw
+            me.range_wann = rnp.arange(nw)
+            me.wannier_centers_cart = rnp.array(cen, dtype=float).dot(latt)
+            me.wannier_centers_red = rnp.array(cen, dtype=float)
+            me.rvec = RV(lattice=latt, shifts_left_red=rnp.array(cen, dtype=float), iRvec=old)
+            H = sym_cplx_array("H", (len(old), nw, nw))
+            S = rnp.zeros((len(old), nw, nw, 3), dtype=object)
+            S[0] = sym_cplx_array("S", (nw, nw, 3))                  # on-site only
+            A = rnp.zeros((len(old), nw, nw, 3), dtype=object)
+            A[1] = sym_cplx_array("A1", (nw, nw, 3))
+            A[5] = sym_cplx_array("A5", (nw, nw, 3))
+            me._XX_R = {"Ham": H.copy(), "SS": S.copy(), "AA": A.copy()}
+            me.do_ws_dist(mp_grid=mesh, ws_dist_tol=tol)
+            Rs = rnp.array(me.rvec.iRvec)
+            U.ensure("all matrices live on the system's one R list", all(me._XX_R[k_].shape[0] == len(Rs) for k_ in ("Ham", "SS", "AA")) and len({tuple(r) for r in Rs.tolist()}) == len(Rs))
+            U.ensure("the new R-vector object carries the system's centres as shifts", rnp.allclose(rnp.array(me.rvec.shifts_left_red, dtype=float), cen) and rnp.allclose(me.rvec.lattice, latt))
+            for key, Xo in (("Ham", H), ("SS", S), ("AA", A)):
+                Xn = me._XX_R[key]
+                cl = []
+                for kpt in itertools.product(*[range(m) for m in mesh]):
+                    kf = [Fraction(kpt[j], mesh[j]) for j in range(3)]
+                    for idx in rnp.ndindex(*Xo.shape[1:]):
+                        cl.append(phsum_eq(fourier_spec([Xn[(iR,) + idx] for iR in range(len(Rs))], Rs, kf), fourier_spec([Xo[(iR,) + idx] for iR in range(len(old))], old, kf)))
+                U.ensure("%s: sum_R X_new[R] ph(k.R) = sum_R X_old[R] ph(k.R) at every mesh point (nothing that is non-zero was dropped)" % key, land(*cl))
+        finally:
+            core.RATIONALIZE[0] = False
+    U.run(body, check_feasible=False)
+    U.assumption("exclude_zeros: a symbolic matrix element stands for a generic non-zero value (|x| > tolerance), a concrete 0 for 0")
+
+
 # ------------------------------------------------------------------ bounded stand-in: real code, any mesh size
+SKEWED = dict(lattice=[[1.183, -0.075, 1.455], [-0.437, -0.543, -0.765], [-0.105, 1.096, 1.707]], mesh=(5, 2, 4), centres=[[-1.5, -0.5, 1.5]], tolerance=1e-5)
+
+
 def _real_roundtrip(rng, n):
     from wannierberri.fourier.rvectors import Rvectors
     fails, cases = [], 0
-    for t in range(6 if n <= 30 else 40):
+    for t in range(-1, 6 if n <= 30 else 40):
         mesh = tuple(rng.choice([1, 2, 3, 4, 5]) for _ in range(3))
         latt = rnp.array([[rng.uniform(-0.4, 0.4) for _ in range(3)] for _ in range(3)]) + rnp.diag([1.0, 1.3, 1.9])
         if t % 4 == 0:
@@ -322,6 +393,8 @@ def _real_roundtrip(rng, n):
             cen[1] = cen[0]
         tol = rng.choice([1e-8, 1e-5, 1e-3, 1e-2])
         tail = rng.choice([(), (3,), (3, 3)])
+        if t == -1:          # the strongly skewed, non-reduced cell whose nearest replicas reach the edge of the +-3 super-cell search box
+            mesh, latt, cen, tol, tail, nw = SKEWED["mesh"], rnp.array(SKEWED["lattice"]), rnp.array(SKEWED["centres"]), SKEWED["tolerance"], (), 1
         kl = _mesh_list(mesh, rng.randint(0, 10 ** 6))
         nk = len(kl)
         rs = rnp.random.RandomState(rng.randint(0, 10 ** 6))
@@ -349,13 +422,18 @@ def _real_roundtrip(rng, n):
             bad.append("an R-vector has no -R partner")
         cases += 1
         if bad:
-            fails.append(dict(input=dict(mesh=mesh, lattice=latt.tolist(), centres=cen.tolist(), tolerance=tol, tail=tail), clause="round trip / Hermiticity / weights", failed=sorted(set(bad))[:3]))
+            inp = dict(mesh=mesh, lattice=latt.tolist(), centres=cen.tolist(), tolerance=tol, tail=tail)
+            only_herm = all(("X(-R) != X(R)^dagger" in b_) or ("-R partner" in b_) for b_ in bad)
+            if t == -1:
+                inp["case"] = "skewed-cell-5x2x4/" + ("hermiticity-only" if only_herm else "other-clause")
+            fails.append(dict(input=inp, clause="round trip / Hermiticity / weights", failed=sorted(set(bad))[:3]))
     return dict(cases=cases, failures=fails, distinct=cases)
 
 
 def _replay_real(mv, ob):
     import random
     r = _real_roundtrip(random.Random(3), 10)
+    r["failures"] = [f_ for f_ in r["failures"] if not str(f_["input"].get("case", "")).endswith("hermiticity-only")]       # the recorded known finding is not a replay of anything
     return dict(reproduced=bool(r["failures"]), input="installed Rvectors.q_to_R on random lattices / meshes 1..5 / centres / tolerances, both FFT libraries", failed=r["failures"][:3])
 
 
